@@ -71,6 +71,7 @@ THEOREMS = [
     "OllamaVerif.C04.F16b_breaks_NoTwins",
     "OllamaVerif.C04.N1_create_continues_witness",
     "OllamaVerif.C04.N2_witness",
+    "OllamaVerif.C04.N3_witness",
     "OllamaVerif.C04.N2_breaks_NameInv",
     "OllamaVerif.C04.auto_template_override_ok",
     "OllamaVerif.C04.F16a_repaired_witness",
@@ -159,7 +160,7 @@ def run(ctx):
     if rc != 0:
         ctx.violation("driver-failed", "", out[-1500:], no_input=True)
     st = ctx.read_stats(outdir)
-    ctx.coverage["variant_under_test"] = {k: bool(st.get("variant_" + k, 0)) for k in ("fixAlias", "fixResolve", "fixReturn", "fixKeep")}
+    ctx.coverage["variant_under_test"] = {k: bool(st.get("variant_" + k, 0)) for k in ("fixAlias", "fixResolve", "fixReturn", "fixKeep", "fixPullName")}
     ctx.l1(outdir)
     ctx.classify(ctx.l2(outdir))
     if ctx.thorough:
